@@ -48,7 +48,7 @@ func Atoms2020() []KV {
 		a = append(a, kvs(k, `-1`, `0`, `1`, `1.5`, `9007199254740992`, `9007199254740994`)...)
 	}
 	for _, k := range []string{"minLength", "maxLength"} {
-		a = append(a, kvs(k, `0`, `1`, `2`)...)
+		a = append(a, kvs(k, `0`, `1`, `2`, `4`)...) // 4: strings of 3-5 code points outside the BMP are in the pool
 	}
 	a = append(a, kvs("pattern", `"^a"`, `"a$"`, `"^$"`, "\"é\"")...)
 	for _, k := range []string{"minItems", "maxItems", "minProperties", "maxProperties"} {
